@@ -35,6 +35,8 @@ type Pilot struct {
 	nonce  int64          // ethereum event nonce counter
 	dists  []distRef
 	mtps   []mtpRef
+	// set by operations after which a restarted node must be compared with running ones: the next block becomes a restart point
+	restartNext bool
 }
 
 type distRef struct {
@@ -80,37 +82,91 @@ func (p *Pilot) End() {
 		p.Events["end/"+e.Type]++
 	}
 	p.genSims()
+	if p.restartNext {
+		p.Spec.RestartBefore = append(p.Spec.RestartBefore, len(p.Spec.Blocks))
+		p.restartNext = false
+	}
 }
 
 // sharedEdit: an administrator message whose handler EDITS an object other messages read in decoded form
 // (registry entries, admin table, oracle whitelist, clp policies).  Used (1) as the first message of
 // transactions whose later message fails, so that the edit is rolled back, and (2) for simulations.
 func (p *Pilot) sharedEdit() (sdk.Msg, string) {
-	a := p.W.Admin.Addr.String()
+	m, _, label := p.sharedEditWithReader()
+	return m, label
+}
+
+// sharedEditWithReader also returns a message of the same signer (the administrator) that READS the edited
+// object afterwards — it may succeed or be refused after reading.
+func (p *Pilot) sharedEditWithReader() (edit sdk.Msg, reader sdk.Msg, label string) {
+	adm := p.W.Admin
+	a := adm.Addr.String()
 	tok := tokens[p.R.Intn(len(tokens))]
-	switch p.R.Intn(8) {
-	case 0, 1, 2: // replace an EXISTING registry entry: no CLP permission, other decimals
+	// a clp message on `tok` by the administrator: reads the registry entry (permissions, decimals)
+	clpReader := func() sdk.Msg {
+		amt := uintOf(new(big.Int).Mul(big.NewInt(int64(1+p.R.Intn(20))), pow10(tok.Decimals)))
+		switch p.R.Intn(3) {
+		case 0:
+			m := clptypes.NewMsgSwap(adm.Addr, clptypes.NewAsset(tok.Denom), clptypes.GetSettlementAsset(), amt, sdk.ZeroUint())
+			return &m
+		case 1:
+			m := clptypes.NewMsgSwap(adm.Addr, clptypes.GetSettlementAsset(), clptypes.NewAsset(tok.Denom), uintOf(new(big.Int).Mul(big.NewInt(int64(1+p.R.Intn(20))), pow10(18))), sdk.ZeroUint())
+			return &m
+		default:
+			m := clptypes.NewMsgAddLiquidity(adm.Addr, clptypes.NewAsset(tok.Denom), uintOf(new(big.Int).Mul(big.NewInt(10), pow10(18))), amt)
+			return &m
+		}
+	}
+	switch p.R.Intn(9) {
+	case 0, 1: // replace an EXISTING registry entry: no CLP permission
 		perms := []trtypes.Permission{trtypes.Permission_IBCEXPORT}
 		if p.R.Bool() {
 			perms = nil
 		}
-		return &trtypes.MsgRegister{From: a, Entry: &trtypes.RegistryEntry{Denom: tok.Denom, BaseDenom: tok.Denom, Decimals: tok.Decimals + int64(p.R.Intn(2)), Permissions: perms}}, "registry.replace"
-	case 3:
-		return &trtypes.MsgDeregister{From: a, Denom: tok.Denom}, "registry.deregister"
+		return &trtypes.MsgRegister{From: a, Entry: &trtypes.RegistryEntry{Denom: tok.Denom, BaseDenom: tok.Denom, Decimals: tok.Decimals + int64(p.R.Intn(2)), Permissions: perms}}, clpReader(), "registry.replace"
+	case 2, 3: // replace an EXISTING entry keeping its permissions but with other decimals (pool pricing reads them)
+		return &trtypes.MsgRegister{From: a, Entry: &trtypes.RegistryEntry{Denom: tok.Denom, BaseDenom: tok.Denom, Decimals: []int64{6, 8, 12, 18}[p.R.Intn(4)] + int64(p.R.Intn(2)),
+			Permissions: []trtypes.Permission{trtypes.Permission_CLP, trtypes.Permission_IBCEXPORT, trtypes.Permission_IBCIMPORT}}}, clpReader(), "registry.redecimal"
 	case 4:
+		return &trtypes.MsgDeregister{From: a, Denom: tok.Denom}, clpReader(), "registry.deregister"
+	case 5:
 		reg := &trtypes.Registry{Entries: []*trtypes.RegistryEntry{{Denom: "rowan", BaseDenom: "rowan", Decimals: 18, Permissions: []trtypes.Permission{trtypes.Permission_CLP}},
 			{Denom: tok.Denom, BaseDenom: tok.Denom, Decimals: tok.Decimals}}}
-		return &trtypes.MsgSetRegistry{From: a, Registry: reg}, "registry.set"
-	case 5:
-		acc := &admintypes.AdminAccount{AdminType: []admintypes.AdminType{admintypes.AdminType_CLPDEX, admintypes.AdminType_TOKENREGISTRY, admintypes.AdminType_PMTPREWARDS}[p.R.Intn(3)], AdminAddress: a}
-		return &admintypes.MsgRemoveAccount{Signer: a, Account: acc}, "admin.remove"
-	case 6:
-		m := ethbridgetypes.NewMsgUpdateWhiteListValidator(p.W.Admin.Addr, sdk.ValAddress(p.W.Vals[p.R.Intn(len(p.W.Vals))].Addr), "remove")
-		return &m, "bridge.whitelist.remove"
+		return &trtypes.MsgSetRegistry{From: a, Registry: reg}, clpReader(), "registry.set"
+	case 6: // drop one of the administrator's roles; the reader is a message that needs exactly that role
+		if p.R.Bool() {
+			acc := &admintypes.AdminAccount{AdminType: admintypes.AdminType_PMTPREWARDS, AdminAddress: a}
+			rd := &clptypes.MsgUpdateRewardsParamsRequest{Signer: a, LiquidityRemovalLockPeriod: 1, LiquidityRemovalCancelPeriod: 9, RewardsLockPeriod: 1, RewardsEpochIdentifier: "hour", RewardsDistribute: true}
+			return &admintypes.MsgRemoveAccount{Signer: a, Account: acc}, rd, "admin.remove"
+		}
+		acc := &admintypes.AdminAccount{AdminType: admintypes.AdminType_TOKENREGISTRY, AdminAddress: a}
+		rd := &trtypes.MsgRegister{From: a, Entry: &trtypes.RegistryEntry{Denom: "cafteredit", BaseDenom: "cafteredit", Decimals: 6, Permissions: []trtypes.Permission{trtypes.Permission_CLP}}}
+		return &admintypes.MsgRemoveAccount{Signer: a, Account: acc}, rd, "admin.remove"
+	case 7:
+		val := sdk.ValAddress(p.W.Vals[p.R.Intn(len(p.W.Vals))].Addr)
+		m := ethbridgetypes.NewMsgUpdateWhiteListValidator(adm.Addr, val, "remove")
+		rd := ethbridgetypes.NewMsgUpdateWhiteListValidator(adm.Addr, val, "add") // reads the list it was just removed from
+		return &m, &rd, "bridge.whitelist.remove"
 	default:
+		rd := &clptypes.MsgUpdateRewardsParamsRequest{Signer: a, LiquidityRemovalLockPeriod: 2, LiquidityRemovalCancelPeriod: 8, RewardsLockPeriod: 1, RewardsEpochIdentifier: "hour", RewardsDistribute: false}
 		return &clptypes.MsgUpdateRewardsParamsRequest{Signer: a, LiquidityRemovalLockPeriod: uint64(p.R.Intn(5)), LiquidityRemovalCancelPeriod: 9,
-			RewardsLockPeriod: uint64(p.R.Intn(3)), RewardsEpochIdentifier: "hour", RewardsDistribute: p.R.Bool()}, "clp.rewardsparams"
+			RewardsLockPeriod: uint64(p.R.Intn(3)), RewardsEpochIdentifier: "hour", RewardsDistribute: p.R.Bool()}, rd, "clp.rewardsparams"
 	}
+}
+
+// EditReadFail: [edit X, a message that reads X (succeeds, or is refused after reading), a send of more than the
+// sender owns] — rejected as a whole.  Whatever the reader computed or cached from the edited X must be gone
+// with the transaction; the block after it becomes a restart point of the `restarted` executions, so that a node
+// that only knows the committed state is compared with nodes that executed the rejected transaction.
+func (p *Pilot) EditReadFail() {
+	edit, reader, label := p.sharedEditWithReader()
+	tooMuch := banktypes.NewMsgSend(p.W.Admin.Addr, p.user().Addr, sdk.NewCoins(coin("rowan", pow10(40))))
+	if p.R.Chance(1, 3) {
+		p.Tx("multi."+label+"+reader", p.W.Admin, edit, reader) // fails only if the reader is refused
+	} else {
+		p.Tx("multi."+label+"+reader+send.toomuch", p.W.Admin, edit, reader, tooMuch)
+	}
+	p.restartNext = true
 }
 
 // RolledBackEdit: [shared edit, a bank send of more than the sender owns] — the transaction is rejected as
